@@ -156,10 +156,12 @@ def escaped_objects(f):
             if e.is_assign:
                 lhs = norm(e.kid(0))
                 if lhs == X:
+                    # a zero-filled object has every member defined, but what the function then stores explicitly is recorded too
+                    # (tagged "="): a family or length left at the filler's zero is as wrong as one left undefined
                     return (frozenset(fields) if zeroed else frozenset(), False, False)
                 m = member(lhs)
                 if m is not None:
-                    return (got | frozenset([m]), esc, dead)
+                    return (got | frozenset([m, "=" + m]), esc, dead)
                 rhs = norm(e.kid(1)) if e.kid(1) is not None else None
                 while rhs is not None and rhs[0] == "cast":
                     rhs = rhs[-1]
@@ -181,7 +183,7 @@ def escaped_objects(f):
                     m = member(n[1]) if n[0] == "&" else (member(n) if n[0] in (".", "[]") else None)
                     if m is not None and (n[0] == "&" or (u.types.get(a.ty) or {}).get("kind") in ("array", "ptr")):
                         if n[0] == "&" or (u.types.get(a.ty) or {}).get("kind") == "array":
-                            got = got | frozenset([m])       # handed to a callee to fill in
+                            got = got | frozenset([m, "=" + m])       # handed to a callee to fill in
                 return (got, esc, dead)
             return st
 
@@ -191,7 +193,7 @@ def escaped_objects(f):
         stored = None
         for r in f.returns():
             st = sv.state_before(r)
-            if st is None or st[2] or not st[1]:
+            if st is None or st[2] or not st[1] or own.is_failure_return(r):
                 continue
             stored = st[0] if stored is None else (stored & st[0])
         if stored is not None:
@@ -463,6 +465,83 @@ def spurious_failures(f):
     return [r for r in fails if r.block.id in seen]
 
 
+FIRST_GETTERS = {"ptrheap_getmin": "ptrheap_deletemin", "timerqueue_getmin": "timerqueue_deletemin", "elasticqueue_get": "elasticqueue_delete"}
+
+
+def drain_loops(f):
+    """[(loop head block, missing)] for loops of the form `while ((x = FIRST(Q)) != NULL) { ... }` -- FIRST being STAILQ_FIRST / TAILQ_FIRST
+    or one of the library's "smallest element" getters -- in which some path from the body back to the head does not pass the
+    matching removal (STAILQ_REMOVE_HEAD / TAILQ_REMOVE / *_deletemin): the loop would look at the same element again, for ever,
+    releasing it each time."""
+    out = []
+    n = 0
+    for b in f.blocks.values():
+        if b.cond is None or len(b.succs) != 2 or b.succs[0] is None:
+            continue
+        if b.id not in f.reach_from(b.succs[0]):
+            continue            # not a loop head
+        firsts = [m for e in b.elems for m in e.macro if m in ("STAILQ_FIRST", "TAILQ_FIRST", "STAILQ_EMPTY", "TAILQ_EMPTY")]
+        getter = None
+        for op, L, R, Le, _ in cond_atoms_(b.cond, True):
+            k = Le.strip() if Le is not None else None
+            if op == "!=" and R == ("c", 0) and k is not None and k.cls == "CallExpr" and k.callee in FIRST_GETTERS:
+                getter = k.callee
+        if not firsts and getter is None:
+            continue
+        if not any(op == "!=" and R == ("c", 0) for op, L, R, _, _ in cond_atoms_(b.cond, True)):
+            continue
+        n += 1
+
+        def removes(e):
+            if firsts and any(m in ("STAILQ_REMOVE_HEAD", "TAILQ_REMOVE", "STAILQ_REMOVE") for m in e.macro):
+                return True
+            return e.cls == "CallExpr" and getter is not None and e.callee == FIRST_GETTERS[getter]
+        rem_blocks = set(x.block.id for x in f.all_elems() if removes(x))
+        # a way from the body's first block back to the head that avoids every removing block
+        seen, work, bad = set(), [b.succs[0]], False
+        while work and not bad:
+            nb = work.pop()
+            if nb is None or nb in seen or nb in rem_blocks:
+                continue
+            seen.add(nb)
+            if nb == b.id:
+                bad = True
+                break
+            if any(e.cls == "ReturnStmt" for e in f.blocks[nb].elems) or f.blocks[nb].noreturn:
+                continue
+            work.extend(f.blocks[nb].succs)
+        if bad:
+            out.append(b)
+    return out, n
+
+
+def alloc_sizes(f):
+    """[(call, bytes asked, bytes of the object)] for `p = malloc(c)` / `calloc(a, b)` with constant arguments assigned to a pointer to a
+    struct larger than what was asked for."""
+    u = f.unit
+    out = []
+    n = 0
+    for e in f.all_elems():
+        if not (e.is_assign and e.op == "=" and e.kid(1) is not None):
+            continue
+        r = e.kid(1).strip()
+        if r is None or r.cls != "CallExpr" or r.callee not in ("malloc", "calloc"):
+            continue
+        pt = u.types.get((u.types.get(e.kid(0).ty) or {}).get("pointee", "")) or {}
+        if pt.get("kind") not in ("struct", "record") or not pt.get("size"):
+            continue
+        args = [norm(a) for a in r.args if a is not None]
+        if not args or not all(a[0] == "c" and isinstance(a[1], int) for a in args):
+            continue
+        n += 1
+        asked = 1
+        for a in args:
+            asked *= a[1]
+        if asked < pt["size"]:
+            out.append((r, asked, pt["size"]))
+    return out, n
+
+
 def apply(rep, pid, files, tier):
     """Run the reference rules on the .c files among `files` that are library units."""
     from . import cdb as _cdb
@@ -507,6 +586,28 @@ def apply(rep, pid, files, tier):
                                 % name, function=f.name, construct="uninit:" + name)
                     if not bad:
                         rep.ok("UNINIT", "%s: every read of a local follows an assignment to it" % f.name, f.loc, "%d reads" % nreads)
+            # ALLOCSIZE (no reference needed)
+            if f.file == up or f.file in files:
+                bad, na = alloc_sizes(f)
+                if na:
+                    n += 1
+                    for c, asked, need in bad:
+                        rep.bad("ALLOCSIZE", "%s: `%s`" % (f.name, c.text[:50]), c.where,
+                                "%d bytes are asked for an object of %d bytes: every member stored afterwards is written outside the allocation" % (asked, need),
+                                function=f.name, construct="alloc-size")
+                    if not bad:
+                        rep.ok("ALLOCSIZE", "%s: constant-size allocations cover the structs they are assigned to" % f.name, f.loc, "%d allocations" % na)
+            # DRAIN (no reference needed)
+            if f.file == up or f.file in files:
+                bad, nd = drain_loops(f)
+                if nd:
+                    n += 1
+                    for hb in bad:
+                        rep.bad("DRAIN", "%s: `%s`" % (f.name, hb.cond.text[:50]), hb.cond.where,
+                                "a path through the loop body returns to this test without having removed the element it took: the same element is "
+                                "processed (and released) again", function=f.name, construct="drain")
+                    if not bad:
+                        rep.ok("DRAIN", "%s: every pass of a drain loop removes the element it looked at" % f.name, f.loc, "%d loops" % nd)
             # FAILPATH: a function that, on the reference tree, fails only when something it called failed still does
             if key in (ref_fp.get(f.file) or []):
                 sp = spurious_failures(f)
@@ -580,9 +681,12 @@ def apply(rep, pid, files, tier):
                         continue
                     n += 1
                     missing = [m for m in members if m not in got[recname]]
+                    expl = [m[1:] for m in missing if m.startswith("=")]
+                    undef = [m for m in missing if not m.startswith("=")]
                     rep.check(not missing, "CTOR", "%s stores every member of the %s it hands on that the reference tree stores" % (f.name, recname), f.loc,
-                              "not stored on every path on which the object is handed on: %s (the object comes from malloc: what is there is whatever the allocator left)"
-                              % ", ".join(missing), function=f.name, construct="ctor-init:" + ",".join(missing))
+                              ((("not stored on every path on which the object is handed on: %s (what is there is whatever the allocator left); " % ", ".join(undef)) if undef else "") +
+                               (("no longer assigned (left at the zero the allocation was filled with): %s" % ", ".join(expl)) if expl else "")),
+                              function=f.name, construct="ctor-init:" + ",".join(missing))
             # DTOR
             want = (ref_dt.get(f.file) or {}).get(key)
             if want is not None:
